@@ -1,5 +1,6 @@
 SPECIFICATION Spec
 CONSTANTS
   MaxMentions = 2
+  Rotate = TRUE
 INVARIANTS UsedIsReached MissingOnlyIfWithheld Emit
 CHECK_DEADLOCK FALSE
